@@ -457,6 +457,7 @@ class DictSerializer:
                 "kind": "base",
                 "name": typ.name,
                 "size": typ.size,
+                "encoding": typ.encoding,
             }
         elif isinstance(typ, DebugStructType):
             fields = []
@@ -499,7 +500,11 @@ class DictSerializer:
         if isinstance(address, DebugAddress):
             return {"kind": "fixed", "symbol_id": address.symbol_id}
         elif isinstance(address, FpOffsetAddress):
-            return {"kind": "fprel", "offset": address.offset.offset}
+            return {
+                "kind": "fprel",
+                "offset": address.offset.offset,
+                "size": address.offset.size,
+            }
         elif isinstance(address, UnknownAddress):
             return {"kind": "unknown"}
         else:  # pragma: no cover
@@ -589,7 +594,7 @@ class DictDeserializer:
         if kind == "fixed":
             return DebugAddress(x["symbol_id"])
         elif kind == "fprel":
-            return FpOffsetAddress(StackLocation(x["offset"], 1))
+            return FpOffsetAddress(StackLocation(x["offset"], x.get("size", 1)))
         elif kind == "unknown":
             return UnknownAddress()
         else:  # pragma: no cover
@@ -605,7 +610,7 @@ class DictDeserializer:
         if kind == "base":
             name = t["name"]
             size = t["size"]
-            dt = DebugBaseType(name, size, 1)
+            dt = DebugBaseType(name, size, t.get("encoding", 1))
             self.types[idx] = dt
         elif kind == "struct":
             dt = DebugStructType()
